@@ -459,6 +459,14 @@ func TestVerifC17(t *testing.T) {
 	var cases []vC17Case
 	if raw := vCasesIn(); raw != nil {
 		for _, b := range raw {
+			// corpus files of the cluster-level harness (TestVerifC17Cluster_*.json) match this test's corpus pattern too:
+			// their inputs carry a "peers" list and are not for this rig
+			var probe struct {
+				Peers []json.RawMessage `json:"peers"`
+			}
+			if json.Unmarshal(b, &probe) == nil && len(probe.Peers) > 0 {
+				continue
+			}
 			var c vC17Case
 			if err := json.Unmarshal(b, &c); err != nil {
 				t.Fatal(err)
